@@ -56,6 +56,8 @@ META = {
         "torch.linalg.pinv / lstsq / cholesky_ex / cholesky_solve, torch.addmm and layout conversions (external kernels: "
         "hypotheses of the theorems; pinv's Penrose conditions are re-measured per case and reported)",
         "tensor-subclass spy (__torch_function__) used only to count matmul calls of CG.forward",
+        "torch.linalg.svd / eigh as contract parameters of the streams ls.svd / ls.lsvd / ls.eigh (orthonormality and "
+        "reconstruction re-measured per case by the driver: a violated contract is an infrastructure error)",
     ],
     "assumptions": [
         "float32 systems are restricted to condition <= 1e3 (kappa*max(m,n)*eps << 1), float64 to <= 1e8",
@@ -67,6 +69,9 @@ META = {
         "CG shapes: a rank-2 A with ONE right-hand side (n,) or (n,1) (cgInDomain); cgEntry itself accepts any rank pair",
         "compressed index arrays satisfy torch's invariants (sorted, distinct inside a row/column): hypothesis `WF`",
         "CG: single systems (b of shape (n,1) or (n,)), as documented",
+        "LSTSQ with an SVD driver: a negative rcond means the driver's machine precision, measured as eps/2 in gelsd and eps in "
+        "gelss (parameter `mach` of lstsqCutoff); the default driver gelsy decides the rank by incremental condition estimation, "
+        "not by singular values (wrapper correspondence + certificate only)",
     ],
     "partial": [
         "IEEE rounding is not modelled: accuracy of the float solvers is decided by measured agreement with the exact "
@@ -242,12 +247,16 @@ def values_differ(xp, x, eps):
     """result of the same call in another autograd mode / spelling: equal up to the rounding of a different memory layout"""
     if not isinstance(xp, torch.Tensor) or not isinstance(x, torch.Tensor) or tuple(xp.shape) != tuple(x.shape):
         return True
+    if xp.is_complex() or x.is_complex():
+        xp, x = torch.view_as_real(xp.detach().to(torch.complex128)), torch.view_as_real(x.detach().to(torch.complex128))
+    if not torch.equal(torch.isfinite(xp.detach()), torch.isfinite(x.detach())):
+        return True
     a, b_ = torch.nan_to_num(xp.detach().double()), torch.nan_to_num(x.detach().double())
     if a.numel() == 0:
         return False
     if a.dim() < 2:
-        return bool(((a - b_).abs() > 64 * eps * max(a.numel(), 1) * torch.maximum(a.abs(), b_.abs()).amax()).any())
-    return bool(((a - b_).abs() > 64 * eps * a.shape[-2] * torch.maximum(a.abs(), b_.abs()).amax(dim=(-2, -1), keepdim=True)).any())
+        return not bool(((a - b_).abs() <= 64 * eps * max(a.numel(), 1) * torch.maximum(a.abs(), b_.abs()).amax()).all())
+    return not bool(((a - b_).abs() <= 64 * eps * a.shape[-2] * torch.maximum(a.abs(), b_.abs()).amax(dim=(-2, -1), keepdim=True)).all())
 
 
 class default_dtype:
@@ -548,7 +557,7 @@ def check_ls(ctx: Ctx, case, lines_out=None) -> bool:
                 bnk = float(rec["b"].norm())
                 tola = 64 * eps * max(m, n) * kap_k * (float(rec["x"].norm()) + (bnk / sr if sr > 0 else 0.0))
                 ctx.count("ls.itemwise")
-                if da > tola + 1e-300:
+                if not (da <= tola + 1e-300):
                     ctx.fail({**rep_case(case), "item": k}, f"batch-item: {name} on item {k} of the batch differs from the same call on "
                                                            f"that item alone by {da:.3e} > {tola:.3e} ({m}x{n}, rank {r}, {dtype})" + sfx(case))
                     ok = False
@@ -570,6 +579,18 @@ def check_ls(ctx: Ctx, case, lines_out=None) -> bool:
                                   f"c10.pinvsvd {m} {n} {Ss.numel()} {0 if at_ is None else 1} {to_wire(float(at_ or 0.0))} "
                                   f"{0 if rt_ is None else 1} {to_wire(float(rt_ or 0.0))} {to_wire(eps)} {wl(Af[k])} {wl(Us)} {wl(Ss)} "
                                   f"{wl(Vhs.mT)} {wl(bf[k])}"))
+            if name.startswith("LSTSQ") and getattr(sol, "driver", None) in ("gelsd", "gelss") and m * n > 0:
+                # the SVD drivers unfolded one level: torch's SVD is the contract parameter; the rcond defaulting
+                # (`lstsqCutoff`: None -> max(m,n)*eps, negative -> LAPACK machine precision: eps/2 in gelsd, eps in gelss),
+                # the strict comparison with rcond*s1 and V S^+ U^T b are the Lean model's (`lstsqForwardSvd`, theorem
+                # lstsq_rcond_svd_forward_minnorm)
+                Us, Ss, Vhs = torch.linalg.svd(Af[k], full_matrices=False)
+                rc_ = getattr(sol, "rcond", None)
+                rec["svd_s"] = Ss
+                lines_out.append((case, rec, "lsvd",
+                                  f"c10.lstsqsvd {m} {n} {Ss.numel()} {0 if rc_ is None else 1} {to_wire(float(rc_ or 0.0))} "
+                                  f"{to_wire(eps)} {to_wire(eps / 2 if sol.driver == 'gelsd' else eps)} {wl(Af[k])} {wl(Us)} {wl(Ss)} "
+                                  f"{wl(Vhs.mT)} {wl(bf[k])}"))
             if name in HERM_CFG and m == n and n > 0:
                 # hermitian=True: the kernel is eigh of ONE triangle (model pinvForwardEigh, theorem pinv_hermitian_forward_minnorm)
                 lam_, Q_ = torch.linalg.eigh(Af[k])
@@ -586,7 +607,7 @@ def check_ls(ctx: Ctx, case, lines_out=None) -> bool:
                 # LSTSQ.forward returns the kernel's solution itself
                 d = float((xf[k] - Kf[k]).abs().max()) if n > 0 else 0.0
                 sc = float(Kf[k].abs().max()) if n > 0 else 0.0
-                if d > 64 * eps * (sc + 1e-300):
+                if not (d <= 64 * eps * (sc + 1e-300)):
                     ctx.disagree("ls.wrapper", rep_case(case), f"item {k}: {name} differs from lstsq(A,b,rcond,driver).solution by {d:.3e}")
                     ok = False
     if name in TRUNC_CUT and lines_out is not None:
@@ -654,23 +675,27 @@ def judge_ls(ctx: Ctx, case, rec, what, rep):
         tol = 64 * eps * dim * scale * (kap if pinv else 1.0)
         ctx.count("ls.cert." + ("pinv" if pinv else "lstsq"))
         stat("ls.cert." + ("pinv" if pinv else "lstsq") + "." + dtype, g / (tol + 1e-300))
-        if g > tol + 1e-300:
+        if not (g <= tol + 1e-300):
             ctx.fail(cc, f"ls-certificate: {name} result is not a least-squares solution: |A^T(Ax-b)| = {g:.3e} > {tol:.3e} "
                          f"({m}x{n}, rank {r}, cond {kap:.1e}, {dtype})" + sfx(case))
-    elif what == "svd":
+    elif what in ("svd", "lsvd"):
+        tag = "ls.svd" if what == "svd" else "ls.lsvd"
+        if common.parse_reply(rep)[0] != "ok" and "model:" in rep:
+            ctx.fail(cc, f"ls-lsvd: the model's LSTSQ.forward raises ({rep}) where {name} returned" + sfx(case))
+            return
         v = nums(rep)
         cut, xm, (cu, cv, ca) = v[0], torch.tensor(v[1:1 + n], dtype=torch.float64), v[1 + n:]
         sv = rec["svd_s"]
         s1_ = float(sv[0])
         # contract of the SVD kernel (hypotheses of the theorem), re-measured
-        if max(cu, cv) > 1e-10 or ca > 1e-10 * (s1_ + 1e-300):
+        if not (max(cu, cv) <= 1e-10 and ca <= 1e-10 * (s1_ + 1e-300)):
             raise common.InfraError(f"torch.linalg.svd violates its contract: |U^TU-1|={cu:.1e} |V^TV-1|={cv:.1e} |A-USV^T|={ca:.1e}")
         # ambiguous only when a singular value is within rounding distance of the cut-off
         band = max((1e-9 if dtype == "float64" else 2e-4) * cut, 2 * eps * s1_)
         if case["items"][rec["k"]].get("kind") == "diag":
             band = -1.0
         if any(abs(float(t) - cut) <= band and not (float(t) == 0.0 and cut == 0.0) for t in sv):
-            ctx.count("ls.svd.ambiguous")
+            ctx.count(tag + ".ambiguous")
             return
         kept = [float(t) for t in sv if float(t) > cut]
         srk = min(kept) if kept else 0.0
@@ -678,19 +703,21 @@ def judge_ls(ctx: Ctx, case, rec, what, rep):
         bn_ = float(rec["b"].norm())
         tol = 64 * eps * dim * kk * (float(xm.norm()) + (bn_ / srk if kept else 0.0))
         d = float((rec["x"] - xm).norm())
-        ctx.count("ls.svd")
-        stat("ls.svd." + dtype, d / (tol + 1e-300))
-        if d > tol + 1e-300:
-            ctx.fail(cc, f"ls-svd: {name} differs from V S^+ U^T b with the documented cut-off max(atol, rtol*s1) = {cut:.3e} "
-                         f"(atol {getattr(make_solver(name), 'atol', None)}, rtol {getattr(make_solver(name), 'rtol', None)}) by {d:.3e} > {tol:.3e} "
-                         f"({m}x{n}, kept {len(kept)} of {len(sv)} singular values, {dtype})" + sfx(case))
-            ctx.disagree("ls.svd", cc, f"|x - x_model| = {d:.3e} > {tol:.3e}")
+        ctx.count(tag)
+        stat(tag + "." + dtype, d / (tol + 1e-300))
+        if not (d <= tol + 1e-300):
+            law = "max(atol, rtol*s1)" if what == "svd" else "rcond*s1 (None: max(m,n)*eps, negative: machine precision)"
+            ms = make_solver(name)
+            ctx.fail(cc, f"ls-{what}: {name} differs from V S^+ U^T b with the documented cut-off {law} = {cut:.3e} "
+                         f"({', '.join(f'{a_} {getattr(ms, a_, None)}' for a_ in ('atol', 'rtol', 'rcond', 'driver') if hasattr(ms, a_))}) "
+                         f"by {d:.3e} > {tol:.3e} ({m}x{n}, kept {len(kept)} of {len(sv)} singular values, {dtype})" + sfx(case))
+            ctx.disagree(tag, cc, f"|x - x_model| = {d:.3e} > {tol:.3e}")
     elif what == "eigh":
         v = nums(rep)
         cut, xm, (cq, ca) = v[0], torch.tensor(v[1:1 + n], dtype=torch.float64), v[1 + n:]
         la = rec["eig_l"].abs()
         s1_ = float(la.max())
-        if cq > 1e-10 or ca > 1e-10 * (s1_ + 1e-300):
+        if not (cq <= 1e-10 and ca <= 1e-10 * (s1_ + 1e-300)):
             raise common.InfraError(f"torch.linalg.eigh violates its contract: |Q^TQ-1|={cq:.1e} |A-QLQ^T|={ca:.1e}")
         band = max((1e-9 if dtype == "float64" else 2e-4) * cut, 2 * eps * s1_)
         if any(abs(float(t) - cut) <= band and not (float(t) == 0.0 and cut == 0.0) for t in la):
@@ -704,7 +731,7 @@ def judge_ls(ctx: Ctx, case, rec, what, rep):
         d = float((rec["x"] - xm).norm())
         ctx.count("ls.eigh")
         stat("ls.eigh." + dtype, d / (tol + 1e-300))
-        if d > tol + 1e-300:
+        if not (d <= tol + 1e-300):
             ctx.fail(cc, f"ls-eigh: {name} differs from Q L^+ Q^T b (eigenvalues of modulus <= {cut:.3e} dropped) by {d:.3e} > {tol:.3e} "
                          f"({n}x{n}, kept {len(kept)} of {n} eigenvalues, {dtype})" + sfx(case))
             ctx.disagree("ls.eigh", cc, f"|x - x_model| = {d:.3e} > {tol:.3e}")
@@ -718,7 +745,7 @@ def judge_ls(ctx: Ctx, case, rec, what, rep):
         toln = 64 * eps * dim * kap * (xn + (bn / sr if sr > 0 else 0.0))
         if r == 0:
             toln = 64 * eps * dim * (bn / max(s1, 1e-300) if s1 > 0 else 0.0)
-        if g > tol + 1e-300 or nullc > toln + 1e-300:
+        if not (g <= tol + 1e-300) or not (nullc <= toln + 1e-300):
             ctx.fail(cc, f"ls-truncated: {name} is not the minimum-norm least-squares solution of A with the singular values below its "
                          f"cut-off set to zero: |At^T(At x-b)| = {g:.3e} (tol {tol:.3e}), component of x in the discarded directions "
                          f"{nullc:.3e} (tol {toln:.3e}) ({m}x{n}, kept {r} of {min(m, n)} singular values, {dtype})" + sfx(case))
@@ -738,7 +765,7 @@ def judge_ls(ctx: Ctx, case, rec, what, rep):
             tol = 64 * eps * dim * kap * (xrn + bn / sr)
             ctx.count("ls.ref." + ("binding" if binding else "info"))
             stat("ls.ref." + ("pinv" if pinv else "lstsq") + "." + dtype + ("" if binding else ".info"), d / (tol + 1e-300))
-            if d > tol + 1e-300:
+            if not (d <= tol + 1e-300):
                 if binding:
                     ctx.fail(cc, f"ls-minnorm: {name} differs from the exact minimum-norm least-squares solution by {d:.3e} > {tol:.3e} "
                                  f"({m}x{n}, rank {r}, cond {kap:.1e}, |x_ref| = {xrn:.3e}, {dtype})" + sfx(case))
@@ -750,7 +777,7 @@ def judge_ls(ctx: Ctx, case, rec, what, rep):
         tol = 64 * eps * max(m, 1) * sc
         ctx.count("ls.wrapper.pinv")
         stat("ls.wrapper.pinv", d / (tol + 1e-300))
-        if d > tol + 1e-300:
+        if not (d <= tol + 1e-300):
             ctx.disagree("ls.wrapper", cc, f"{name}: forward differs from pinv(A, atol, rtol, hermitian) @ b by {d:.3e} > {tol:.3e}")
     elif what == "penrose":
         p1, p2, p3, p4, an, pn = nums(rep)
@@ -949,7 +976,7 @@ def run_chol_cases(ctx: Ctx, cases):
                         sv = torch.linalg.svdvals(Af[k])
                         tola = 64 * eps * n * float(sv[0] / sv[-1].clamp_min(1e-300)) * float(xf[k].norm())
                         ctx.count("chol.itemwise")
-                        if da > tola + 1e-300:
+                        if not (da <= tola + 1e-300):
                             ctx.fail({**cc, "item": k}, f"batch-item: Cholesky on item {k} of the batch differs from the same call on that "
                                                         f"item alone by {da:.3e} > {tola:.3e} (n={n}, {dtype})" + hs)
                     except Exception as e:
@@ -973,7 +1000,7 @@ def run_chol_cases(ctx: Ctx, cases):
                 for c in range(1, bf.shape[-1]):
                     rr = float((Af[k] @ xf[k][:, c] - bf[k][:, c]).norm())
                     sc = float(torch.linalg.matrix_norm(Af[k], 2) * xf[k][:, c].norm() + bf[k][:, c].norm())
-                    if rr > 64 * eps * n * sc + 1e-300:
+                    if not (rr <= 64 * eps * n * sc + 1e-300):
                         ctx.fail(cc, f"chol-residual: |A x - b| = {rr:.3e} > {64 * eps * n * sc:.3e} for right-hand side {c}")
         except common.InfraError:
             raise
@@ -993,7 +1020,7 @@ def run_chol_cases(ctx: Ctx, cases):
         tol = 64 * eps * n * (s1 * xn + bn)
         ctx.count("chol.residual")
         stat("chol.residual." + dtype, res / (tol + 1e-300))
-        if res > tol + 1e-300:
+        if not (res <= tol + 1e-300):
             ctx.fail({**cc, "item": k}, f"chol-residual: Cholesky result does not solve A x = b: |A x - b| = {res:.3e} > {tol:.3e} "
                                         f"(n={n}, cond {s1 / max(sn, 1e-300):.1e}, {dtype}, upper={cc['upper']})")
         if xm is None:
@@ -1001,7 +1028,7 @@ def run_chol_cases(ctx: Ctx, cases):
         d = float((xk - xm).norm())
         tolx = 64 * eps * n * (s1 / max(sn, 1e-300)) * float(xm.norm())
         stat("chol.solve." + dtype, d / (tolx + 1e-300))
-        if d > tolx + 1e-300:
+        if not (d <= tolx + 1e-300):
             ctx.disagree("chol.solve", {**cc, "item": k}, f"|x - x_model| = {d:.3e} > {tolx:.3e}")
 
 
@@ -1306,7 +1333,7 @@ def check_cg(ctx: Ctx, case):
         ctx.count("cg.oracle")
         stat("cg.residual." + dtype, res / (tol * bn * (1 + 1e-6) + slack))
         stat("cg.drift-over-slack." + dtype, (res - tol * bn) / slack)
-        if res > tol * bn * (1 + 1e-6) + slack:
+        if not (res <= tol * bn * (1 + 1e-6) + slack):
             ctx.fail(cc, f"cg-residual: |b - A x| = {res:.3e} > tol*|b| = {tol * bn:.3e} (+{slack:.1e}) "
                          f"(n={n}, layout {case['layout']}, cond 1e{case['cexp']} {case['spec']}, x0 {case['x0']}, M {case['M']}/{case['Mlayout']}, "
                          f"tol {tol}, passes {K}, |b| = {bn:.2e}, {dtype})" + hs)
@@ -1365,7 +1392,7 @@ def judge_cg_model(ctx: Ctx, case, x, K, rep_cg, rep_traj):
     kap = 10.0 ** case["cexp"]
     tolx = 1e4 * EPS["float64"] * kap * (Km + 1) * float(xm.norm() + 1e-300) + 1e-300
     stat("cg.iterate", d / tolx)
-    if d > tolx:
+    if not (d <= tolx):
         ctx.disagree("cg.iterate", cc, f"|x - x_model| = {d:.3e} > {tolx:.3e} after {Km} passes")
 
 
@@ -1847,7 +1874,7 @@ def check_cg_entry(ctx: Ctx):
                 ctx.fail(case, f"cg-raises: CG rejected a right-hand side of rank {k} for a rank-2 A ({out}); the shape rule accepts it")
                 ctx.disagree("cg.entry", case, f"model accepts, implementation {out}")
             elif not isinstance(x, torch.Tensor) or tuple(x.shape) != (n, 1) or \
-                    float((A @ x - bs[k].reshape(n, 1)).norm()) > 1e-4 * float(bs[k].norm()):
+                    not (float((A @ x - bs[k].reshape(n, 1)).norm()) <= 1e-4 * float(bs[k].norm())):
                 ctx.fail(case, f"shape: CG with a rank-{k} right-hand side returned {getattr(x, 'shape', None)} / a wrong solution")
         elif out == "ok":
             ctx.disagree("cg.entry", case, f"model rejects rank {k} ({rep}), implementation returned")
@@ -1927,7 +1954,7 @@ def check_complex(ctx: Ctx):
                 kap = torch.where(rk > 0, s1 / sr.clamp_min(1e-300), torch.ones_like(s1))
                 gn = (Ad.mH @ (Ad @ xd - bd)).norm(dim=(-2, -1))
                 tol = 64 * eps * max(m, n) * s1 * (s1 * xd.norm(dim=(-2, -1)) + bd.norm(dim=(-2, -1))) * (kap if name == "PINV" else 1.0)
-                if bool((gn > tol + 1e-300).any()):
+                if not bool(torch.isfinite(xd).all()) or not bool((gn <= tol + 1e-300).all()):
                     ctx.fail(case, f"ls-certificate: {name} on a {dtn} system: |A^H(Ax-b)| = {float(gn.max()):.3e} > {float(tol.min()):.3e} "
                                    f"({m}x{n}, rank {r})")
                 if name == "PINV":
@@ -1935,7 +1962,7 @@ def check_complex(ctx: Ctx):
                     nullc = torch.stack([(Vh.reshape(-1, n, n)[i][int(rk.reshape(-1)[i]):] @ xd.reshape(-1, n, 1)[i]).norm()
                                          for i in range(rk.numel())]).reshape(rk.shape)
                     toln = 64 * eps * max(m, n) * kap * (xd.norm(dim=(-2, -1)) + bd.norm(dim=(-2, -1)) / sr.clamp_min(1e-300))
-                    if bool((nullc > toln + 1e-300).any()):
+                    if not bool((nullc <= toln + 1e-300).all()):
                         ctx.fail(case, f"ls-minnorm: PINV on a {dtn} system is not the minimum-norm solution (null-space component "
                                        f"{float(nullc.max()):.3e})")
         for n, batch in ((1, ()), (4, ()), (6, (3,))):
@@ -1949,7 +1976,7 @@ def check_complex(ctx: Ctx):
                 try:
                     x = s.Cholesky(upper=upper)(H.clone(), b.clone())
                     rr = (H.to(torch.complex128) @ x.to(torch.complex128) - b.to(torch.complex128)).norm() / b.to(torch.complex128).norm()
-                    if x.dtype != dt or float(rr) > 64 * eps * n * float(torch.linalg.cond(H.to(torch.complex128)).max()):
+                    if x.dtype != dt or not (float(rr) <= 64 * eps * n * float(torch.linalg.cond(H.to(torch.complex128)).max())):
                         ctx.fail(case, f"chol-residual: Cholesky on a {dtn} Hermitian PD system: relative residual {float(rr):.3e}, dtype {x.dtype}")
                 except Exception as e:
                     ctx.fail(case, f"chol-raises: Cholesky raised on a {dtn} Hermitian positive-definite system: {type(e).__name__}")
@@ -1978,7 +2005,7 @@ def check_alias_args(ctx: Ctx):
             A = A0.clone()
             try:
                 X = mk()(A, A)
-                if not torch.equal(A, A0) or tuple(X.shape) != (n, n) or float((X - I).abs().max()) > 64 * EPS["float64"] * n * 10:
+                if not torch.equal(A, A0) or tuple(X.shape) != (n, n) or not (float((X - I).abs().max()) <= 64 * EPS["float64"] * n * 10):
                     ctx.fail(case, f"alias-args: {name}(A, A) (the same tensor as matrix and right-hand side) does not return the identity "
                                    f"(max deviation {float((X - I).abs().max()):.3e}) or changed A")
             except Exception as e:
@@ -1993,7 +2020,7 @@ def check_alias_args(ctx: Ctx):
             try:
                 x = s.CG()(A1, b, b if "x0" in how else None, A1 if "M is" in how else None)
                 res = float((A @ x - b0).norm() / b0.norm())
-                if not torch.equal(A1, A) or res > 1e-5 * (1 + 1e-6) + 1e-12:
+                if not torch.equal(A1, A) or not (res <= 1e-5 * (1 + 1e-6) + 1e-12):
                     ctx.fail(case, f"alias-args: CG with {how}: |b-Ax|/|b| = {res:.3e} (against the original b) or A changed")
             except Exception as e:
                 ctx.fail(case, f"raises: CG with {how} raised: {type(e).__name__}: {str(e)[:80]}")
@@ -2072,6 +2099,10 @@ def check_large(ctx: Ctx):
                 if not ok:
                     ctx.fail(case, f"shape: {name} on a batch of {B} returned {getattr(x, 'shape', None)}")
                     continue
+                if not bool(torch.isfinite(x).all()):
+                    i = int((~torch.isfinite(x).reshape(B, -1).all(dim=1)).nonzero()[0])
+                    ctx.fail({**case, "item": i}, f"nonfinite: {name} returned a non-finite vector for item {i} of a batch of {B} finite systems")
+                    continue
                 # cut points incl. the remainders B % 2^k (a block loop with floor division drops exactly those items)
                 cuts = (1, B // 2, 4096, B - 1) if B < 2 ** 17 else (B - B % 2 ** 16, B - B % 2 ** 12)
                 for a_ in cuts:
@@ -2098,7 +2129,7 @@ def check_large(ctx: Ctx):
                     sv = torch.linalg.svdvals(A)
                     nz = torch.where(sv > 1e-12 * sv[:, :1].clamp_min(1e-300), sv, torch.full_like(sv, float("inf"))).amin(dim=-1)
                     kap = torch.where(torch.isfinite(nz), sv[:, 0] / nz.clamp_min(1e-300), kap)
-                badm = res.norm(dim=(-2, -1)) > 64 * EPS["float64"] * 3 * sc * kap + 1e-300
+                badm = ~(res.norm(dim=(-2, -1)) <= 64 * EPS["float64"] * 3 * sc * kap + 1e-300)    # (a NaN item is a bad item)
                 if bool(badm.any()):
                     i = int(badm.nonzero()[0])
                     ctx.fail({**case, "item": i}, f"ls-certificate: item {i} of a batch of {B} solved by {name} violates the normal equations "
@@ -2112,7 +2143,7 @@ def check_large(ctx: Ctx):
         gg, res, xn, bn, an = nums(rep)
         s1 = float(torch.linalg.matrix_norm(Ai, 2))
         tol = 64 * EPS["float64"] * 3 * s1 * (s1 * xn + bn) * kp
-        if gg > tol + 1e-300:
+        if not (gg <= tol + 1e-300):
             ctx.fail({**case, "item": i}, f"ls-certificate: item {i} of the large batch: exact |A^T(Ax-b)| = {gg:.3e} > {tol:.3e}")
     # one large CG system per layout (well conditioned: the float iteration needs few passes) and one large block grid
     big = [cg_call_case(257, 1901, cexp=1), cg_call_case(257, 1902, cexp=1, layout="csr", x0="random"),
@@ -2247,13 +2278,16 @@ def check_subclass(ctx: Ctx):
         except Exception as e:
             ctx.fail(case, f"raises: a user subclass of {name} raised: {type(e).__name__}: {str(e)[:80]}")
             continue
+        if not (isinstance(xu, torch.Tensor) and bool(torch.isfinite(xu).all())):
+            ctx.fail(case, f"nonfinite: a user subclass of {name} returned a non-finite result / no tensor")
+            continue
         if values_differ(xr, xu, (1e3 if name == "CG" else 1) * EPS["float64"]):
             ctx.fail(case, f"subclass: {type(user).__name__}(…) (derived from / wrapping {name}) returns something else than {name} itself "
                            f"(max difference {float((xr - xu).abs().max()):.3e})")
         if name == "CG":
             res = float((b_ - A_ @ xu).norm() / b_.norm())
             tol_ = 1e-9 if isinstance(user, (MyCG, PropCG)) else 1e-5
-            if res > tol_ * (1 + 1e-6) + 1e-12:
+            if not (res <= tol_ * (1 + 1e-6) + 1e-12):
                 ctx.fail(case, f"cg-residual: {type(user).__name__} (tol {tol_}) returned x with |b-Ax|/|b| = {res:.3e}")
 
 
@@ -2528,7 +2562,7 @@ def check_duck(ctx: Ctx):
             ctx.count(f"duck.{how}.returns")
             xd = x.to_dense() if isinstance(x, torch.Tensor) and x.layout != torch.strided else x
             if not isinstance(xd, torch.Tensor) or tuple(xd.shape) != (n, 1) or \
-                    float((Sm @ xd.detach().double().as_subclass(torch.Tensor) - b).norm()) > 1e-4 * float(b.norm()):
+                    not (float((Sm @ xd.detach().double().as_subclass(torch.Tensor) - b).norm()) <= 1e-4 * float(b.norm())):
                 ctx.fail(case, f"duck-type: {name} accepted a {how} operand and returned something that does not solve the system")
 
 
